@@ -61,6 +61,7 @@ func registerStd(p *Program) {
 
 	registerJSON(p)
 	registerJDoc(p)
+	registerJSONSchema(p)
 	registerGob(p)
 
 	// ---- regexp: only what jsonreference/internal uses ----
